@@ -234,6 +234,10 @@ pub fn c20(tier: Tier) -> i32 {
     malformed_json_sweep(&ctx, &mut acc, "C20");
     // every fixture ledger: MCP answers equal the CLI's; explain_matching explains every listed disposal
     fixtures(&ctx, &mut acc);
+    // every ordered pair of explain_matching / calculate_report requests about one ledger (all disposals, all year
+    // filters) in one server: the second answer must be the one a fresh server gives
+    history_pairs(&ctx, &mut acc);
+    ctx.require(acc.get("history-pairs:two-request-sessions-vs-fresh-process") > 100, "the request-pair cell did not run");
     // many requests in flight: bursts of 8..64 requests written in one batch, per tool and mixed
     bursts(&ctx, &mut acc, if tier == Tier::Quick { &[8, 16, 32, 64] } else { &[8, 16, 32, 64, 128, 256] });
     ctx.require(acc.get("fixtures:one-year-reports-compared") > 0, "no one-year report was compared");
@@ -247,6 +251,65 @@ pub fn c20(tier: Tier) -> i32 {
         "'no response within the horizon' is the only time-based verdict".into(),
     ];
     ctx.finish(&acc, "model_checking")
+}
+
+/// The MCP front-end: "the same command on the same inputs" must get the same bytes from a fresh process and from a
+/// process that has already answered another request. Request alphabet: explain_matching for every disposal of a
+/// ledger with sales on both sides of 5/6 April within one calendar year (two securities), and calculate_report for
+/// every year filter; every ordered pair (first, second) of requests runs in its own fresh `cgt-tool mcp` process,
+/// and the answer to `second` must be byte-identical to the answer it gets alone in a fresh process.
+pub fn history_pairs(ctx: &Ctx, acc: &mut Acc) {
+    use mcx::proc::tool_call;
+    let ledger = "2023-01-10 BUY VOD 1000 @ 1.00\n2023-01-10 BUY ACME 500 @ 2.00 FEES 3\n2024-03-01 SELL VOD 100 @ 1.50\n2024-04-05 SELL ACME 50 @ 2.50\n2024-04-06 SELL VOD 30 @ 1.40\n2024-06-03 SELL VOD 200 @ 1.20\n2024-06-03 SELL ACME 20 @ 1.90 FEES 1\n2025-03-01 SELL ACME 10 @ 2.20\n2025-04-07 SELL VOD 5 @ 1.10\n";
+    let mut reqs: Vec<(String, String, Value)> = vec![];
+    for (d, t) in [("2024-03-01", "VOD"), ("2024-04-05", "ACME"), ("2024-04-06", "VOD"), ("2024-06-03", "VOD"), ("2024-06-03", "ACME"), ("2025-03-01", "ACME"), ("2025-04-07", "VOD")] {
+        reqs.push((format!("explain {d} {t}"), "explain_matching".into(), json!({"transactions": ledger, "disposal_date": d, "ticker": t})));
+    }
+    for y in [2023, 2024, 2025] {
+        reqs.push((format!("report {y}"), "calculate_report".into(), json!({"transactions": ledger, "year": y})));
+    }
+    reqs.push(("report all".into(), "calculate_report".into(), json!({"transactions": ledger})));
+    let session = |seq: &[usize]| -> Option<Vec<String>> {
+        let sc = Scratch::new();
+        sc.all_years_config();
+        let mut m = Mcp::start(&sc);
+        let mut out = vec![];
+        for (k, i) in seq.iter().enumerate() {
+            let id = json!(10 + k);
+            m.send_raw(&tool_call(&id, &reqs[*i].1, reqs[*i].2.clone()));
+            if !m.wait_for(&[id.to_string()], std::time::Duration::from_secs(20)) {
+                let _ = m.finish();
+                return None;
+            }
+            let mut v = m.got[&id.to_string()][0].clone();
+            if let Some(o) = v.as_object_mut() {
+                o.remove("id");
+            }
+            out.push(v.to_string());
+        }
+        let _ = m.finish();
+        Some(out)
+    };
+    let solo: Vec<Option<Vec<String>>> = (0..reqs.len()).into_par_iter().map(|i| session(&[i])).collect();
+    let pairs: Vec<(usize, usize)> = (0..reqs.len()).flat_map(|i| (0..reqs.len()).map(move |j| (i, j))).collect();
+    let results: Vec<Option<Vec<String>>> = pairs.par_iter().map(|(i, j)| session(&[*i, *j])).collect();
+    for ((i, j), r) in pairs.iter().zip(results.iter()) {
+        acc.states += 1;
+        acc.validated += 1;
+        acc.bump("history-pairs:two-request-sessions-vs-fresh-process");
+        let inp = Input::Json(json!({"requests": [reqs[*i].0, reqs[*j].0], "ledger": ledger}));
+        let want = solo[*j].as_ref().map(|v| v[0].clone());
+        match (r, want) {
+            (Some(got), Some(w)) => {
+                if got[1] != w {
+                    acc.violation(&ctx.findings, "C20", Violation { clause: "answer-depends-on-history".into(), input: inp, detail: format!("'{}' is answered differently by a process that has answered '{}' before than by a fresh process: {} vs {}", reqs[*j].0, reqs[*i].0, got[1].chars().take(160).collect::<String>(), w.chars().take(160).collect::<String>()), context: json!({"profile": "mcp request pairs"}) });
+                } else if got[1].contains("\"error\"") {
+                    acc.bump("history-pairs:second-answer-is-an-error");
+                }
+            }
+            _ => acc.violation(&ctx.findings, "C20", Violation { clause: "answer-depends-on-history".into(), input: inp, detail: "a request got no answer within 20 s".into(), context: json!({"profile": "mcp request pairs"}) }),
+        }
+    }
 }
 
 fn fixtures(ctx: &Ctx, acc: &mut Acc) {
